@@ -57,7 +57,16 @@ func (o *Obligation) query(models bool) string {
 		b.WriteString(d)
 		b.WriteByte('\n')
 	}
-	for _, a := range e.asserts[:o.nAsserts] {
+	var keep []bool
+	if !o.Cover && os.Getenv("GOVC_NOPRUNE") == "" {
+		e.pruneMu.Lock()
+		keep = e.prune(o.nAsserts, o.Guard, o.Goal)
+		e.pruneMu.Unlock()
+	}
+	for i, a := range e.asserts[:o.nAsserts] {
+		if keep != nil && !keep[i] {
+			continue
+		}
 		b.WriteString("(assert ")
 		b.WriteString(a)
 		b.WriteString(")\n")
@@ -204,6 +213,29 @@ type runner struct {
 }
 
 func (r *runner) discharge(o *Obligation) {
+	// clauses with several return points: decide each return separately first (smaller, ite-free queries)
+	if len(o.subs) > 0 && !o.triedSubs {
+		o.triedSubs = true
+		all := true
+		total := 0.0
+		for _, s := range o.subs {
+			r.discharge(s)
+			total += s.Secs
+			if s.Status == "failed" {
+				o.Status, o.Output, o.Model, o.Backend, o.Secs = "failed", s.Name+"\n"+s.Output, s.Model, s.Backend, total
+				o.Guard, o.Goal, o.nAsserts = s.Guard, s.Goal, s.nAsserts
+				return
+			}
+			if s.Status != "proved" {
+				all = false
+				break
+			}
+		}
+		if all {
+			o.Status, o.Backend, o.Secs = "proved", o.subs[0].Backend, total
+			return
+		}
+	}
 	r.mu.Lock()
 	r.n++
 	id := r.n
@@ -211,7 +243,11 @@ func (r *runner) discharge(o *Obligation) {
 	file := filepath.Join(r.dir, fmt.Sprintf("q%04d.smt2", id))
 	q := o.query(true)
 	os.WriteFile(file, []byte(q), 0o644)
-	res := runSolvers(file, r.timeout, r.seed, false)
+	to := r.timeout
+	if o.Cover && to > 4*time.Second && !r.thorough {
+		to = 4 * time.Second
+	}
+	res := runSolvers(file, to, r.seed, false)
 	o.Backend, o.Secs = res.backend, res.secs
 	switch res.status {
 	case "unsat":
@@ -232,6 +268,32 @@ func (r *runner) discharge(o *Obligation) {
 	default:
 		o.Status = "unknown"
 		o.Output = res.output
+		if strings.Contains(res.output, "(error ") && !strings.Contains(res.output, "model is not available") {
+			o.Status = "error" // malformed query: an engine defect, never a verdict
+		}
+		// undecided as a whole: try the per-return decomposition
+		if len(o.subs) > 0 && !o.triedSubs {
+			all := true
+			total := 0.0
+			for _, s := range o.subs {
+				r.discharge(s)
+				total += s.Secs
+				if s.Status == "failed" {
+					o.Status, o.Output, o.Model, o.Backend = "failed", s.Name+"\n"+s.Output, s.Model, s.Backend
+					o.Guard, o.Goal, o.nAsserts = s.Guard, s.Goal, s.nAsserts
+					all = false
+					break
+				}
+				if s.Status != "proved" {
+					o.Output = s.Name + " undecided\n" + s.Output
+					all = false
+					break
+				}
+			}
+			if all {
+				o.Status, o.Backend, o.Secs = "proved", o.subs[0].Backend+" (per-return)", total
+			}
+		}
 	}
 	o.file = file
 }
